@@ -344,3 +344,26 @@ def id_maps(draw, inst):
     pmap = list(draw(st.permutations(ID_POOL)))[:inst['n2']]
     lmap = list(draw(st.permutations(ID_POOL)))[:inst['n3']] if inst['na'] == 3 else None
     return {'smap': smap, 'pmap': pmap, 'lmap': lmap}
+
+
+@st.composite
+def siblings(draw, inst):
+    """Another instance over the same agents and first-side lists (so that the same matchings
+    are expressible) with different capacities, targets and second-side orders.  Used as the
+    instance of a second object in the same process: nothing may leak from it."""
+    import copy
+    s = copy.deepcopy(inst)
+    n2, n3 = s['n2'], s['n3']
+    s['puq'] = [max(s['plq'][j], s['puq'][j] + draw(st.sampled_from([-1, 0, 1, 2])))
+                for j in range(n2)]
+    if s['na'] == 3:
+        s['luq'] = [max(s['llq'][k], s['luq'][k] + draw(st.sampled_from([-1, 0, 1, 3])))
+                    for k in range(n3)]
+        s['lt'] = [max(s['llq'][k], min(s['luq'][k], draw(st.sampled_from([0, 1, 2, 3]))))
+                   for k in range(n3)]
+    else:
+        s['llq'], s['lt'], s['luq'] = list(s['plq']), list(s['puq']), list(s['puq'])
+    if s.get('lprefs') is not None:
+        s['lprefs'] = [list(reversed(g)) for g in s['lprefs']]
+    s['cls'] = 'sibling'
+    return s
